@@ -255,11 +255,11 @@ def run(ck):
     ms = [list(m) for m in gv.multisets(2)]
     for m in (rs.sample(ms, 1500) if quick else ms):
         inferred.append([m, rs.choice([0, 1, 3, 10, 200])])
-    for i in range(2500 if quick else 120000):
+    for i in range(7500 if quick else 120000):
         inferred.append([gv.gen_multiset(rs), rs.choice([0, 1, 2, 3, 10, 200])])
     n = core.NPROC * (2 if quick else 8)
-    nrandom = 4000 if quick else 200000
-    ntr = 3000 if quick else 60000
+    nrandom = 12000 if quick else 200000
+    ntr = 9000 if quick else 60000
     payloads = [{"exprs": exprs[i::n], "inferred": inferred[i::n], "random": nrandom // n, "traces": ntr // n, "seed": f"C08:{ck.seed}:{i}"}
                 for i in range(n)]
     for r in core.pmap("vf.props.c08:work", payloads, timeout=3400):
